@@ -223,3 +223,16 @@ NOTES = ("Static analysis only; nothing of /repo is imported or executed: the an
 
 CHECKS["C16"]["text"] += " In addition the core-column, sequence and dialect-clause fixed points show that on every derivation of those fragments the parser always has an action, the lexer meets no unknown symbol and no semantic action raises: supported DDL of these fragments reaches neither error hook (O-accept / O-raise)."
 CHECKS["C16"]["engine"] += " + E3 x E4 (O-accept / O-raise over the core fragments)"
+
+
+CHECKS["C08"] = {
+    "engine": "E7 linemodel (Parser.process_line evaluated abstractly on line classes) - relational fixed point over pairs of line-machine states",
+    "category": "model_checking",
+    "technique": "abstract interpretation of the per-line comment / statement-assembly machine (the real method bodies walked as ast, regexes compiled from the source, the LALR call intercepted) on lock-step exemplar lines; relational (2-safety) fixed point over (state of a script, state of the same script with comments added); syntactic justification of the state abstraction (T-ABS: every read of the text registers has a content-independent form)",
+    "text": "For every well-formed sequence of the listed code-line classes (statement openers, column lines, lines with string literals, closers with and without ';', clause lines, one-line statements with and without ';', skipped statements, SET lines, blank lines) and from every reachable pair of machine states: adding a trailing `--` or `/* */` comment to a code line, a whole-line `--` / `#` / `/* */` comment (at the margin or indented), a block comment over several lines, or a comment at the very end of the script leaves the statements handed to the grammar, the pending statement, the SET registers and the returned entities unchanged; comment lines hand nothing to the grammar; the machine leaves block-comment mode at the closing line; every item appended to `comments` is taken from the comment text of that line (so items are in source order and contain no code). Comment texts: plain words, SQL-like text with keywords / commas / parentheses / semicolons, text containing the other comment marker (`--` inside /* */, `/*` `*/` inside `--`), and in the thorough tier `=`-bearing, statement-word, long and unbalanced-parenthesis texts. Three known findings (indented opener of a multi-line block comment; a comment after a line whose string literal contains `--`, two forms); four defects found by this check were repaired.",
+    "design_ref": "DESIGN.md section 9.8",
+    "note": "Decided at line-class level: lines are written as they look after pre_process_data; the whole-script regex spacing / quote-parity step that precedes the line loop is NOT decided, nor are comments placed in the middle of a line's code or block comments opened after code. What the grammar does with a statement text is outside this check (the statements are shown to be the same texts). The output-side clause (comments entry kept apart by group_by_type) is C13's O-group.",
+}
+NOT_APPLICABLE.pop("C08", None)
+ENGINES.append({"name": "E7 linemodel", "path": "/verif/sdpverif/linemodel.py", "serves_properties": ["C08"],
+                "kind_free_text": "the line machine of parser.py (process_line, comment detection, SET handling, statement assembly, end of parse_data) as an abstract transition function over line classes; the LALR call is intercepted"})
